@@ -26,6 +26,7 @@ const LAZY: &str = "lazy = #{ ! [#('int | \\File) { ='int => Ok }], 0 }";
 const IDLE: &str = "idle = #{ x = !'int, f = !#\\File, 0 }";
 const TWO: &str = "two = #['bin, 'bin, 'int] { =[p1, p2, mode], f = [p1, 577, 420] __file_open__, g = [p2, 577, 420] __file_open__, a = [f, 0, 0x01] __file_write__, b = [g, 0, 0x0203] __file_write__, mode { | =0 => f __file_close__ | =2 => [1, 0] __integer_divide__ | Ok }, [a, b] __integer_add__ }";
 const BOUNCER: &str = "bouncer = #{ !#[\\File, (@\\File)] =[f, to], f to, 7 }";
+const SPG: &str = "spg = #['bin, 'int] { =[path, ua], f = [path, 577, 420] __file_open__, n = [f, 0, 0xaabbcc] __file_write__, c = f @child, ua { | =1 => [f, 0, 2] __file_read__ __binary_length__ | =2 => [f, 0, 0x01] __file_write__ | =3 => { y = f __file_close__, 0 } | [n, !c] __integer_add__ } }";
 const SELFS: &str = "selfs = #['bin, 'int] { =[path, c], f = [path, 577, 420] __file_open__, w = [f, 0, 0x01020304] __file_write__, h = &., f h, g = !#\\File, d = [g, 0, 4] __file_read__, c { | =1 => g __file_close__ | Ok }, d __binary_length__ }";
 const RESH: &str = "resh = #'bin { =path, f = [path, 577, 420] __file_open__, w = [f, 0, 0x0102] __file_write__, f }";
 const PP: &str = "pp = #'bin { =path, b = @bouncer, f = [path, 577, 420] __file_open__, w = [f, 0, 0x0a0b0c] __file_write__, [f, &.] b, g = !#\\File, d = [g, 0, 8] __file_read__, d __binary_length__ }";
@@ -74,14 +75,14 @@ impl Property for C14 {
         if rng.chance(1, 12) {
             return repl_owner(rng);
         }
-        let defs: Vec<String> = vec![USER.into(), GIVER.into(), KEEPER.into(), KEEPT.into(), CHILD.into(), KEEPFN.into(), LAZY.into(), IDLE.into(), TWO.into(), BOUNCER.into(), PP.into(), SELFS.into(), RESH.into()];
+        let defs: Vec<String> = vec![USER.into(), GIVER.into(), KEEPER.into(), KEEPT.into(), CHILD.into(), KEEPFN.into(), LAZY.into(), IDLE.into(), TWO.into(), BOUNCER.into(), PP.into(), SELFS.into(), RESH.into(), SPG.into()];
         let mut h = crate::rng::Fnv::default();
         let mut lines: Vec<String> = Vec::new();
         let mut awaits: Vec<String> = Vec::new();
         let neps = 1 + rng.usize(4);
         let mut kinds = Vec::new();
         for k in 0..neps {
-            let kind = rng.below(24);
+            let kind = rng.below(25);
             h.u64(kind);
             kinds.push(kind);
             let aw = |rng: &mut Rng, awaits: &mut Vec<String>, name: String| {
@@ -90,6 +91,15 @@ impl Property for C14 {
                 }
             };
             match kind {
+                24 => {
+                    // a process uses its handle, passes it to a spawned child and at once uses it again
+                    // (nothing else of its own in between): the second use must be refused although the
+                    // very same request by the very same process had just been let through
+                    let ua = rng.below(4);
+                    h.u64(ua);
+                    lines.push(format!("sg{k} = [\"/e{k}\" .0, {ua}] @spg"));
+                    aw(rng, &mut awaits, format!("sg{k}"));
+                }
                 22 => {
                     // a process sends its handle to itself, takes it out of its mailbox and goes on
                     // using it: a transfer whose target is the owner
